@@ -61,12 +61,12 @@ theorem canonAny_isNone : ∀ (fs : List FieldDecl) (v : PyVal), (canonAny fs v)
     · exact canonV_isNone f v
 end
 
-theorem fserLast_A (x : FieldDecl) (v : PyVal) (hx : isNoneF x = false) :
-    fserLast noMappers [] [x, .noneF] v = fser noMappers [] x v := by
+theorem fserLast_A {JK : List String} (x : FieldDecl) (v : PyVal) (hx : isNoneF x = false) :
+    fserLast noMappers [] JK [x, .noneF] v = fser noMappers [] JK x v := by
   simp only [fserLast, List.all_cons, List.all_nil, isNoneF_noneF, hx, Bool.and_self, Bool.not_false, if_true]
 
-theorem fserLast_B (y : FieldDecl) (v : PyVal) (hy : isNoneF y = false) :
-    fserLast noMappers [] [.noneF, y] v = fser noMappers [] y v := by
+theorem fserLast_B {JK : List String} (y : FieldDecl) (v : PyVal) (hy : isNoneF y = false) :
+    fserLast noMappers [] JK [.noneF, y] v = fser noMappers [] JK y v := by
   simp only [fserLast, List.all_cons, List.all_nil, isNoneF_noneF, hy, Bool.and_true, Bool.false_and,
     Bool.false_eq_true, if_false, Bool.not_false, Bool.and_self, if_true]
 
@@ -79,18 +79,18 @@ theorem canonAny_B (y : FieldDecl) (v : PyVal) (hy : isNoneF y = false) :
   simp only [canonAny, isNoneF_noneF, if_true, hy, Bool.false_eq_true, if_false]
 
 section
-variable (O : Oracles)
+variable (O : Oracles) (JK : List String)
 
 /-- `field.serialize(v)` agrees with `serialize_val(field, v)` on the canonical form of `v`, and a
     non-None value never serializes to None -/
 def FsEq (f : FieldDecl) (v : PyVal) : Prop :=
-  fser noMappers [] f v = ser O f (canonV f v)
+  fser noMappers [] JK f v = ser O f (canonV f v)
     ∧ (v.isNone = false → ∀ j, ser O f (canonV f v) = .ok j → j.isNone = false)
 
 theorem fsEq_numlike (f : FieldDecl) (v : PyVal)
-    (hf : fser noMappers [] f v = fDefault v) (hs : ser O f v = sScalar v) (hc : canonV f v = v)
+    (hf : fser noMappers [] JK f v = fDefault JK v) (hs : ser O f v = sScalar v) (hc : canonV f v = v)
     (hj : (match v with | .bool _ => true | .int _ => true | .float _ => true | .str _ => true | _ => false) = true) :
-    FsEq O f v := by
+    FsEq O JK f v := by
   unfold FsEq
   rw [hc, hf, hs]
   cases v <;> simp at hj <;> simp [fDefault, sScalar, PyVal.isNone]
@@ -98,7 +98,7 @@ theorem fsEq_numlike (f : FieldDecl) (v : PyVal)
 /-- the getter of a Number / String / Boolean field returns the attribute itself, which is what
     its `serialize` would return -/
 theorem nsb_fser (f : FieldDecl) (v : PyVal) (h : isNSB f = true) (hw : fwf O f v = true) :
-    fser noMappers [] f v = .ok v := by
+    fser noMappers [] JK f v = .ok v := by
   cases f <;> simp [isNSB] at h <;> simp only [fwf] at hw <;> cases v <;> simp [numJson] at hw <;> simp [fser, fDefault]
 
 theorem isNumOrStr_props (item : FieldDecl) (x : PyVal) (h : isNumOrStr item = true)
@@ -154,22 +154,22 @@ theorem fwfAny_pair (x y : FieldDecl) (v : PyVal) (h : fwfAny O [x, y] v = true)
 
 mutual
 theorem fser_equiv : ∀ (f : FieldDecl) (v : PyVal),
-    fsafeD [] f = true → fwf O f v = true → FsEq O f v
+    fsafeD [] f = true → fwf O f v = true → FsEq O JK f v
   | .number _, v, _, hw => by
     simp only [fwf] at hw
-    exact fsEq_numlike O _ v (by simp [fser]) (by simp [ser]) (by simp [canonV])
+    exact fsEq_numlike O JK _ v (by simp [fser]) (by simp [ser]) (by simp [canonV])
       (by cases v <;> simp [numJson] at hw <;> rfl)
   | .integer _, v, _, hw => by
     simp only [fwf] at hw
-    exact fsEq_numlike O _ v (by simp [fser]) (by simp [ser]) (by simp [canonV])
+    exact fsEq_numlike O JK _ v (by simp [fser]) (by simp [ser]) (by simp [canonV])
       (by cases v <;> simp at hw <;> rfl)
   | .float _, v, _, hw => by
     simp only [fwf] at hw
-    exact fsEq_numlike O _ v (by simp [fser]) (by simp [ser]) (by simp [canonV])
+    exact fsEq_numlike O JK _ v (by simp [fser]) (by simp [ser]) (by simp [canonV])
       (by cases v <;> simp at hw <;> rfl)
   | .string _ _ _, v, _, hw => by
     simp only [fwf] at hw
-    exact fsEq_numlike O _ v (by simp [fser]) (by simp [ser]) (by simp [canonV])
+    exact fsEq_numlike O JK _ v (by simp [fser]) (by simp [ser]) (by simp [canonV])
       (by cases v <;> simp at hw <;> rfl)
   | .boolean, v, _, hw => by
     simp only [fwf] at hw
@@ -195,7 +195,7 @@ theorem fser_equiv : ∀ (f : FieldDecl) (v : PyVal),
       obtain ⟨rfl, _⟩ := seqLike_of_seqElems k v xs hse
       simp only [hse] at hw
       have hall : ∀ x ∈ xs, fwf O item x = true := List.all_eq_true.mp hw
-      have hcongr : mapE (fser noMappers [] item) xs = mapE (ser O item) (xs.map (canonV item)) := by
+      have hcongr : mapE (fser noMappers [] JK item) xs = mapE (ser O item) (xs.map (canonV item)) := by
         rw [mapE_map]
         exact mapE_congr xs (fun x hx => (fser_equiv item x hs (hall x hx)).1)
       refine ⟨?_, fun _ j hj => ?_⟩
@@ -219,7 +219,7 @@ theorem fser_equiv : ∀ (f : FieldDecl) (v : PyVal),
     cases v <;> simp at hw
     rename_i fr xs
     have hall : ∀ x ∈ xs, fwf O item x = true := hw
-    have hcongr : mapE (fser noMappers [] item) xs = mapE (ser O item) (xs.map (canonV item)) := by
+    have hcongr : mapE (fser noMappers [] JK item) xs = mapE (ser O item) (xs.map (canonV item)) := by
       rw [mapE_map]
       exact mapE_congr xs (fun x hx => (fser_equiv item x hs (hall x hx)).1)
     refine ⟨?_, fun _ j hj => ?_⟩
@@ -242,7 +242,7 @@ theorem fser_equiv : ∀ (f : FieldDecl) (v : PyVal),
     cases v <;> simp at hw
     rename_i xs
     have hall : ∀ x ∈ xs, fwf O item x = true := hw
-    have hcongr : mapE (fser noMappers [] item) xs = mapE (ser O item) (xs.map (canonV item)) := by
+    have hcongr : mapE (fser noMappers [] JK item) xs = mapE (ser O item) (xs.map (canonV item)) := by
       rw [mapE_map]
       exact mapE_congr xs (fun x hx => (fser_equiv item x hs (hall x hx)).1)
     refine ⟨?_, fun _ j hj => ?_⟩
@@ -266,7 +266,7 @@ theorem fser_equiv : ∀ (f : FieldDecl) (v : PyVal),
     cases v <;> simp at hw
     rename_i kvs
     have hcongr : mapE (fun (kv : PyVal × PyVal) =>
-          bindE (fser noMappers [] kf kv.1) fun k' => bindE (fser noMappers [] vf kv.2) fun v' => .ok (k', v')) kvs
+          bindE (fser noMappers [] JK kf kv.1) fun k' => bindE (fser noMappers [] JK vf kv.2) fun v' => .ok (k', v')) kvs
         = mapE (fun (kv : PyVal × PyVal) =>
           bindE (ser O kf kv.1) fun k' => bindE (ser O vf kv.2) fun v' => .ok (k', v'))
             (kvs.map fun kv => (canonV kf kv.1, canonV vf kv.2)) := by
@@ -312,7 +312,7 @@ theorem fser_equiv : ∀ (f : FieldDecl) (v : PyVal),
 
 theorem fserZip_equiv : ∀ (items : List FieldDecl) (xs : List PyVal),
     fsafeL [] items = true → xs.length = items.length → fwfZip O items xs = true →
-    fserZip noMappers [] items xs = serZip O items (canonZip items xs)
+    fserZip noMappers [] JK items xs = serZip O items (canonZip items xs)
   | [], [], _, _, _ => by simp [fserZip, serZip, canonZip, serAnyList]
   | [], _ :: _, _, hl, _ => by simp at hl
   | _ :: _, [], _, hl, _ => by simp at hl
@@ -324,7 +324,7 @@ theorem fserZip_equiv : ∀ (items : List FieldDecl) (xs : List PyVal),
 
 theorem fserZipRaw_equiv : ∀ (items : List FieldDecl) (xs : List PyVal),
     fsafeL [] items = true → xs.length = items.length → fwfZip O items xs = true →
-    fserZipRaw noMappers [] items xs = serZip O items (canonZip items xs)
+    fserZipRaw noMappers [] JK items xs = serZip O items (canonZip items xs)
   | [], [], _, _, _ => by simp [fserZipRaw, serZip, canonZip, serAnyList]
   | [], _ :: _, _, hl, _ => by simp at hl
   | _ :: _, [], _, hl, _ => by simp at hl
@@ -335,7 +335,7 @@ theorem fserZipRaw_equiv : ∀ (items : List FieldDecl) (xs : List PyVal),
       fserZipRaw_equiv fs xs hs.2 (by simpa using hl) hw.2]
 
 theorem fopt_equiv : ∀ (fs : List FieldDecl) (v : PyVal),
-    fsafeOpt [] fs = true → v.isNone = false → fwfAny O fs v = true → FsEq O (.anyOf fs) v
+    fsafeOpt [] fs = true → v.isNone = false → fwfAny O fs v = true → FsEq O JK (.anyOf fs) v
   | [], _, hs, _, _ => by simp [fsafeOpt] at hs
   | [_], _, hs, _, _ => by simp [fsafeOpt] at hs
   | _ :: _ :: _ :: _, _, hs, _, _ => by simp [fsafeOpt] at hs
@@ -373,7 +373,7 @@ theorem fopt_equiv : ∀ (fs : List FieldDecl) (v : PyVal),
 theorem ffields_equiv : ∀ (rest fieldsAll : List (String × FieldDecl)) (defaults attrs : List (String × PyVal)),
     fsafeFields [] rest = true → fwfFields O defaults attrs rest = true →
     (∀ p ∈ rest, lookup p.1 fieldsAll = some p.2) →
-    fFields noMappers [] false .none defaults attrs rest
+    fFields noMappers [] JK false .none defaults attrs rest
       = mapE (serAttr O fieldsAll) ((canonFields attrs rest).filter fun a => !a.2.isNone)
   | [], _, _, _, _, _, _ => by simp [fFields, canonFields, mapE]
   | (n, f) :: rest, fieldsAll, defaults, attrs, hs, hw, hl => by
@@ -413,10 +413,10 @@ theorem ffields_equiv : ∀ (rest fieldsAll : List (String × FieldDecl)) (defau
           · exact h
         have ihf := fser_equiv f v hs.1 hwf
         have hget : (if isNSB f = true then (Except.ok v : R PyVal)
-            else if v.isNone = true then .ok .none else fser noMappers [] f v) = ser O f (canonV f v) := by
+            else if v.isNone = true then .ok .none else fser noMappers [] JK f v) = ser O f (canonV f v) := by
           rw [← ihf.1]
           by_cases hnsb : isNSB f = true
-          · simp only [hnsb, if_true]; exact (nsb_fser O f v hnsb hwf).symm
+          · simp only [hnsb, if_true]; exact (nsb_fser O JK f v hnsb hwf).symm
           · simp only [hnsb, Bool.false_eq_true, if_false, hvn']
         have hcn : (canonV f v).isNone = false := by rw [canonV_isNone]; exact hvn'
         simp only [hget, List.singleton_append, List.filter, hcn, Bool.not_false, mapE, serAttr,
@@ -432,10 +432,10 @@ end
     `compact=False`) -/
 theorem fast_equiv_core (cls : FieldDecl) (x : PyVal) (hs : fsafeCls [] cls = true)
     (hw : fwf O cls x = true) :
-    fastSerialize noMappers [] false false cls x = serialize O cls (canonV cls x) := by
+    fastSerialize noMappers [] JK false false cls x = serialize O cls (canonV cls x) := by
   cases cls with
   | struct c fields defaults =>
-    have h := (fser_equiv O (.struct c fields defaults) x hs hw).1
+    have h := (fser_equiv O JK (.struct c fields defaults) x hs hw).1
     unfold serialize
     rw [← h]
     simp only [fsafeCls, fsafeD, and_true_iff, Bool.not_eq_true'] at hs
@@ -444,7 +444,7 @@ theorem fast_equiv_core (cls : FieldDecl) (x : PyVal) (hs : fsafeCls [] cls = tr
     rename_i cn attrs
     simp only [fastSerialize, attrsOf, fser, hs.1.1.1, Bool.false_eq_true, if_false, List.contains_nil,
       Bool.false_and]
-    cases fFields noMappers [] false (noMappers c.name) defaults attrs fields <;> rfl
+    cases fFields noMappers [] JK false (noMappers c.name) defaults attrs fields <;> rfl
   | _ => simp [fsafeCls] at hs
 
 /-- the same class with exactly one, required, field and no additional properties, compact on both
@@ -455,7 +455,7 @@ theorem fast_compact_core (c : ClassOpts) (n : String) (f : FieldDecl) (defaults
     (hw : fwf O (.struct c [(n, f)] defaults) (.inst cn attrs) = true)
     (hreq : c.required = [n]) (haddl : c.addl = false)
     (hv : lookup n attrs = some v) (hvn : v.isNone = false) :
-    fastSerialize noMappers [] false true (.struct c [(n, f)] defaults) (.inst cn attrs)
+    fastSerialize noMappers [] JK false true (.struct c [(n, f)] defaults) (.inst cn attrs)
       = serializeCompact O true (.struct c [(n, f)] defaults)
           (canonV (.struct c [(n, f)] defaults) (.inst cn attrs)) := by
   simp only [fsafeCls, fsafeD, fsafeFields, and_true_iff, Bool.not_eq_true'] at hs
@@ -464,12 +464,12 @@ theorem fast_compact_core (c : ClassOpts) (n : String) (f : FieldDecl) (defaults
     rcases hw.2.1 with h | h
     · rw [hvn] at h; cases h
     · exact h
-  have ihf := fser_equiv O f v hs.2.1 hwf
+  have ihf := fser_equiv O JK f v hs.2.1 hwf
   have hget : (if isNSB f = true then (Except.ok v : R PyVal)
-      else if v.isNone = true then .ok .none else fser noMappers [] f v) = ser O f (canonV f v) := by
+      else if v.isNone = true then .ok .none else fser noMappers [] JK f v) = ser O f (canonV f v) := by
     rw [← ihf.1]
     by_cases hnsb : isNSB f = true
-    · simp only [hnsb, if_true]; exact (nsb_fser O f v hnsb hwf).symm
+    · simp only [hnsb, if_true]; exact (nsb_fser O JK f v hnsb hwf).symm
     · simp only [hnsb, Bool.false_eq_true, if_false, hvn]
   simp only [fastSerialize, attrsOf, fFields, getAttr, hv, hget, serializeCompact, haddl, Bool.not_false,
     Bool.and_self, if_true, hreq, beq_self_eq_true, canonV, canonFields, List.append_nil, lookup,
@@ -483,20 +483,20 @@ theorem fast_compact_core (c : ClassOpts) (n : String) (f : FieldDecl) (defaults
 end
 
 /-- `serialize_none=False` is `serialize_none=True` with the None entries removed -/
-theorem fFields_serialize_none (Mp : MapEnv) (NF : List String) (m : TMapper)
+theorem fFields_serialize_none (Mp : MapEnv) (NF JK : List String) (m : TMapper)
     (defaults attrs : List (String × PyVal)) : ∀ fields : List (String × FieldDecl),
-    fFields Mp NF false m defaults attrs fields
-      = bindE (fFields Mp NF true m defaults attrs fields) fun r => .ok (r.filter fun kv => !kv.2.isNone)
+    fFields Mp NF JK false m defaults attrs fields
+      = bindE (fFields Mp NF JK true m defaults attrs fields) fun r => .ok (r.filter fun kv => !kv.2.isNone)
   | [] => by simp [fFields]
   | (n, f) :: rest => by
-    simp only [fFields, fFields_serialize_none Mp NF m defaults attrs rest]
+    simp only [fFields, fFields_serialize_none Mp NF JK m defaults attrs rest]
     cases (if isNSB f = true then Except.ok (getAttr defaults attrs n)
            else if (getAttr defaults attrs n).isNone = true then Except.ok PyVal.none
-           else fser Mp NF f (getAttr defaults attrs n)) with
+           else fser Mp NF JK f (getAttr defaults attrs n)) with
     | error e => rfl
     | ok j =>
       simp only [bindE_ok]
-      cases fFields Mp NF true m defaults attrs rest with
+      cases fFields Mp NF JK true m defaults attrs rest with
       | error e => rfl
       | ok r =>
         simp only [bindE_ok, Bool.not_true, Bool.and_false, Bool.false_eq_true, if_false, Bool.not_false,
@@ -505,17 +505,17 @@ theorem fFields_serialize_none (Mp : MapEnv) (NF : List String) (m : TMapper)
 
 /-- **C10, `serialize_none`**: the document with `serialize_none=True` is the one with
     `serialize_none=False` plus an explicit null for every unset field -/
-theorem fast_serialize_none_core (NF : List String) (cls : FieldDecl) (x : PyVal) :
-    fastSerialize noMappers NF false false cls x
-      = bindE (fastSerialize noMappers NF true false cls x) fun d =>
+theorem fast_serialize_none_core (NF JK : List String) (cls : FieldDecl) (x : PyVal) :
+    fastSerialize noMappers NF JK false false cls x
+      = bindE (fastSerialize noMappers NF JK true false cls x) fun d =>
           match d with
           | .dict r => .ok (.dict (r.filter fun kv => !kv.2.isNone))
           | w => .ok w := by
   cases cls with
   | struct c fields defaults =>
     simp only [fastSerialize, Bool.false_and, Bool.false_eq_true, if_false, noMappers_apply, keyDedupe,
-      TMapper.isNone, if_true, fFields_serialize_none noMappers NF .none defaults (attrsOf x) fields]
-    cases fFields noMappers NF true .none defaults (attrsOf x) fields <;> rfl
+      TMapper.isNone, if_true, fFields_serialize_none noMappers NF JK .none defaults (attrsOf x) fields]
+    cases fFields noMappers NF JK true .none defaults (attrsOf x) fields <;> rfl
   | _ => rfl
 
 end Typedpy
